@@ -165,6 +165,7 @@ type State struct {
 	preemptLeft  int
 	switchNow    bool
 	switchTo     int
+	jsonVals     map[int]*IfaceV // json.Marshal ghost pairing: serial -> the value the marker bytes encode
 	syncInt      map[string]int // WaitGroup counters, mutex states, once flags, keyed by object+path
 	pools        map[string][]Value
 	fixedIdx     int               // concrete re-execution: index of the next fixed nondet value
@@ -221,6 +222,7 @@ func (st *State) clone() *State {
 	n.abstract = st.abstract
 	n.randomSelect = st.randomSelect
 	n.preemptLeft = st.preemptLeft
+	n.jsonVals = st.jsonVals
 	n.syncInt = make(map[string]int, len(st.syncInt))
 	for k, v := range st.syncInt {
 		n.syncInt[k] = v
